@@ -97,6 +97,10 @@ func runAttached(src string, firePoll int64, fireTick int, opts lua.Options, att
 				res.panicked = fmt.Sprint(r)
 			}
 		}()
+		if attach == "bare" {
+			// no library is opened: the script is the very first thing this state ever calls
+			opts.SkipOpenLibs = true
+		}
 		L := lua.NewState(opts)
 		defer func() {
 			defer func() { recover() }()
@@ -226,6 +230,10 @@ var templates = []struct {
 	{"terminating_calls", `local function f(n) tick() if n == 0 then return 0 end return n + f(n - 1) end emit(f(PARAM)) emit(pcall(f, 3))`, true},
 }
 
+// templates that need no library function: they also run in a state created with SkipOpenLibs
+var bareTemplates = map[string]bool{"tight_while": true, "tight_while_noticks": true, "numeric_for": true, "generic_for": true, "repeat_loop": true, "goto_loop": true,
+	"deep_recursion": true, "tail_call_loop": true, "mutual_tail": true, "table_build": true, "closure_churn": true, "terminating_loop": true}
+
 type CancelCase struct {
 	Template string `json:"template"`
 	Param    int    `json:"param"`
@@ -268,7 +276,7 @@ var chkCancel = vf.Register("cancel_everywhere", func(k *vf.C, c *CancelCase) er
 			r = runAttached(src, 0, p, opts, c.Attach)
 		}
 		k.Class("cancellations")
-		where := fmt.Sprintf("%s(%d)%s: cancel at %s %d", c.Template, c.Param, map[string]string{"": "", "swap": " [context attached by a host function during the run]", "thread": " [script in a NewThread thread with its own SetContext]"}[c.Attach], c.Mode, p)
+		where := fmt.Sprintf("%s(%d)%s: cancel at %s %d", c.Template, c.Param, map[string]string{"": "", "swap": " [context attached by a host function during the run]", "thread": " [script in a NewThread thread with its own SetContext]", "bare": " [state created with SkipOpenLibs: the script is its first call]"}[c.Attach], c.Mode, p)
 		if r.stuck {
 			return fmt.Errorf("%s: the point was not reached; the harness then cancelled the context and the script was still running 10 s later", where)
 		}
@@ -307,7 +315,7 @@ var chkCancel = vf.Register("cancel_everywhere", func(k *vf.C, c *CancelCase) er
 	k.EvalN(c.Upto)
 	k.Class("template:" + c.Template)
 	k.Class("mode:" + c.Mode)
-	k.Class("attach:" + map[string]string{"": "before_run", "swap": "during_run", "thread": "on_derived_thread"}[c.Attach])
+	k.Class("attach:" + map[string]string{"": "before_run", "swap": "during_run", "thread": "on_derived_thread", "bare": "first_call_of_a_state_without_libraries"}[c.Attach])
 	if landed >= 3 {
 		k.Nontrivial(vf.Hash(c.Template, fmt.Sprint(c.Param), c.Mode, fmt.Sprint(c.MinStack), c.Src, c.Attach))
 		k.Sample(c.Mode, 3, map[string]any{"template": c.Template, "param": c.Param, "mode": c.Mode, "points": c.Upto, "landed": landed, "max_polls_after_cancel": deepest, "src": clip(src, 300)})
@@ -336,6 +344,9 @@ func TestTemplates(t *testing.T) {
 						n = upto / 3
 					}
 					chkCancel.Run(t, &CancelCase{Template: tp.name, Param: param, Mode: mode, Upto: n, MinStack: ms})
+					if !ms && bareTemplates[tp.name] {
+						chkCancel.Run(t, &CancelCase{Template: tp.name, Param: param, Mode: mode, Upto: n / 3, MinStack: ms, Attach: "bare"})
+					}
 					if !ms {
 						for _, at := range []string{"swap", "thread"} {
 							chkCancel.Run(t, &CancelCase{Template: tp.name, Param: param, Mode: mode, Upto: n / 3, MinStack: ms, Attach: at})
